@@ -21,3 +21,9 @@ CONFIG = {
                     "only termination and well-formedness are claimed (C18 no_panic_resolve, C11 result theorems), and the model mirrors the code's cycle guards (fix 0d78b57)",
                     "the library's refinements R1-R10 of DESIGN.md 6.2 are part of the definition"],
 }
+# statement-by-statement translation of small pure Go functions (tools/extract/trans.go -> lean/VGen/TransStateRes.lean) and the
+# theorems that the translated definitions equal the model's, for all inputs (lean/VProps/TransStateRes.lean)
+CONFIG["lean"] = list(CONFIG["lean"]) + ["VProps.TransStateRes"]
+CONFIG["sources"] = list(CONFIG["sources"]) + ['VProps/TransStateRes.lean', 'VModel/GoSem.lean']
+CONFIG["theorems"] = list(CONFIG["theorems"]) + ['V.Trans.StateRes.powerLevelHeap_lt_eq_model', 'V.Trans.StateRes.powerLevelHeap_zero_iff', 'V.Trans.StateRes.otherHeap_lt_eq_model']
+CONFIG["trusted"] = list(CONFIG["trusted"]) + ["tools/extract/trans.go: the Go-to-Lean translation of the whitelisted functions and the Go semantics of lean/VModel/GoSem.lean (DESIGN.md §14)"]
